@@ -21,6 +21,9 @@ type C13Case struct {
 	Dst   gen.B  `json:"dst"`
 	Data  gen.B  `json:"data"`
 	Spare int    `json:"spare,omitempty"` // capacity of dst, see sentinelDst
+	// Huge: Kind "huge" packs and unpacks one sequence of this many bases (a whole large
+	// chromosome; thorough tier only), made inside the check
+	Huge int `json:"huge,omitempty"`
 }
 
 const dnaLetters = "aAcCgGtT"
@@ -115,6 +118,34 @@ func checkC13(c C13Case, o *Obs) (err error) {
 	o.ClassIf(len(c.Dst) > 0, "non-empty dst")
 	o.ClassIf(len(c.Dst) > 0 && c.Spare != 0, "non-empty dst with tight capacity")
 	switch c.Kind {
+	case "huge":
+		if c.Huge < 1<<20 || c.Huge > 1<<29 {
+			return nil
+		}
+		o.NT = true
+		unit := []byte("ACGTTGCAacgttgcaGATTACA")
+		big := bytes.Repeat(unit, c.Huge/len(unit)+1)[:c.Huge]
+		var packed []byte
+		if p := catch(func() { packed = sequtil.DNATo2Bit(nil, big) }); p != nil {
+			return fmt.Errorf("DNATo2Bit of %d valid bases panicked: %v", c.Huge, p)
+		}
+		if len(packed) != (c.Huge+3)/4 {
+			return fmt.Errorf("DNATo2Bit of %d bases appended %d bytes, want %d", c.Huge, len(packed), (c.Huge+3)/4)
+		}
+		// first and last 64 bases (offsets that are multiples of four)
+		tailFrom := (c.Huge - 64) / 4 * 4
+		if !bytes.Equal(packed[:16], ref.Pack2Bit(big[:64])) || !bytes.Equal(packed[tailFrom/4:], ref.Pack2Bit(big[tailFrom:])) {
+			return fmt.Errorf("DNATo2Bit of %d bases: first or last packed bytes are wrong", c.Huge)
+		}
+		big = nil
+		var text []byte
+		if p := catch(func() { text = sequtil.DNAFrom2Bit(nil, packed) }); p != nil {
+			return fmt.Errorf("DNAFrom2Bit of %d packed bytes panicked: %v", len(packed), p)
+		}
+		if len(text) != 4*len(packed) || !bytes.Equal(text[:23], bytes.ToUpper(unit)) {
+			return fmt.Errorf("DNAFrom2Bit of %d packed bytes gives %d bases starting %q", len(packed), len(text), text[:23])
+		}
+		return nil
 	case "ntoi":
 		o.NT = len(data) >= 2
 		for _, b := range data {
@@ -258,6 +289,12 @@ func exhaustiveC13(thorough bool, emit func(C13Case) bool) {
 			return
 		}
 	}
+	// one sequence as long as a large chromosome arm (2^28 bases and a few): no length is special
+	if thorough {
+		if !emit(C13Case{Kind: "huge", Huge: 1<<28 + 5}) {
+			return
+		}
+	}
 	// Ntoi on all 256 bytes.
 	all := make([]byte, 256)
 	for i := range all {
@@ -331,7 +368,7 @@ func exhaustiveC13(thorough bool, emit func(C13Case) bool) {
 }
 
 func keyC13(c C13Case) []byte {
-	k := append([]byte(c.Kind), byte(len(c.Dst)), byte(c.Spare))
+	k := append([]byte(c.Kind), byte(len(c.Dst)), byte(c.Spare), byte(c.Huge>>24), byte(c.Huge))
 	k = append(k, c.Dst...)
 	k = append(k, 0)
 	return append(k, c.Data...)
